@@ -260,7 +260,13 @@ class ProgGen:
 
     def add(self, step, tags=()):
         step["out"] = self.fresh()
-        self.env[step["out"]] = apply_step(step, self.env, np, False)
+        with np.errstate(all="ignore"):
+            val = apply_step(step, self.env, np, False)
+        if val.size and val.dtype.kind in "iu" and int(np.abs(val).max()) > (1 << 40):
+            # keep magnitudes far from int64 overflow: NumPy wraps, the Lean model (unbounded Int) does not
+            self.k -= 1
+            raise _Skip
+        self.env[step["out"]] = val
         self.prog.append(step)
         t = set(tags)
         for a in step.get("args", []):
